@@ -30,6 +30,26 @@ def los(f, x, rmax, pts=None):
     return 2 * v
 
 
+def peak_source(s, name):
+    """the analytic source of a SampleImage from its own peak table: F(y, rho)"""
+    sc = s._scale
+
+    def F(y, rho):
+        R = np.hypot(y, rho)
+        cos = np.divide(-y, R, out=np.zeros_like(R), where=R > 0) * -1
+        tot = 0.0
+        for A, r0, w, cn in s._peaks:
+            A_ = A(R) if callable(A) else A
+            if name == "O2":
+                d = np.abs(R - r0 * sc) / (2 * w)
+                ring = np.where(d > 1, 0.0, 1 - (3 - 2 * d) * d ** 2)
+            else:
+                ring = np.exp(-((R - r0 * sc) / w) ** 2)
+            tot = tot + A_ * ring * sum(c * cos ** k for k, c in enumerate(cn))
+        return tot
+    return F
+
+
 def hc(t):
     return np.sqrt(np.maximum(0.0, t))
 
@@ -219,6 +239,21 @@ def oracle(ck, tier, deep):
                 if not d_ <= 1.01 * (1e-5 + tt) * amp_:
                     ck.violation(dict(site="SampleImage", clause="tighter-tolerance-worse", name=name), dict(name=name, n=41, sigma=3.0, tol=tt, difference=d_),
                                  f"SampleImage(41, {name!r}, sigma=3).transform({tt:g}) differs from transform(1e-5) by {d_ / amp_:.3g} of the maximum — more than both tolerances together")
+                # … and is itself within the requested tolerance of the line-of-sight integral of the source (one row and one column of
+                # pixels by quadrature): a request below the documented table is honoured, not clamped
+                F_ = peak_source(s_, name)
+                reach_ = max([s_.r_max * 1.5 + 20] + [r0 * s_._scale + 8 * w for A_, r0, w, cn in s_._peaks])
+                px_ = [(20, j) for j in range(20, 41, 2)] + [(i, 26) for i in range(0, 41, 4)]
+                for (i, j) in px_:
+                    y_, x_ = float(s_.r[i]), abs(float(s_.r[j]))
+                    want_ = los(lambda q: float(F_(np.array(y_), np.array(q))), x_, reach_)
+                    ck.count(("S.sample-tight-tol-quadrature", name, tt), suite="S.sample-images")
+                    if abs(tight[i, j] - want_) > 1.01 * tt * amp_ + 1e-10 * amp_:
+                        ck.violation(dict(site="SampleImage", clause="abel-pair-tight-tolerance", name=name),
+                                     dict(name=name, n=41, sigma=3.0, tol=tt, pixel=[i, j], abel=float(tight[i, j]), quadrature=want_),
+                                     f"SampleImage(41, {name!r}, sigma=3).transform({tt:g})[{i},{j}] = {tight[i, j]:.12g}, projection of func = {want_:.12g}: "
+                                     f"off by {abs(tight[i, j] - want_) / amp_:.3g} of the maximum, tolerance requested {tt:g}")
+                        break
         except Exception as e:
             ck.violation(dict(site="SampleImage", clause="exception", name=name), dict(name=name, tol="tight"), f"{type(e).__name__}: {e}")
     for name in names:
